@@ -250,6 +250,16 @@ def msForward {d n : Nat} (ls : List (MSLevel K d n)) (stop : Option (Vec K n)) 
   | none => out
   | some s => Vector.ofFn fun i => out[i] * s[i]
 
+/-- `MultiScaleCoronagraph.backward` (wavelength already 1): the Lyot stop acts first
+(`lyot_stop.backward`, an `Apodizer`: the conjugate), every level uses the same `prop.forward` /
+`prop.backward` pair in the same order as `forward`, with the stored mask conjugated
+(`FourierFilter.backward` on level 0, `focal.electric_field *= mask.conj()` on the others). -/
+def msBackward {d n : Nat} (cj : K → K) (ls : List (MSLevel K d n)) (stop : Option (Vec K n)) (E : Vec K n) : Vec K n :=
+  let wf : Vec K n := match stop with
+    | none => E
+    | some s => Vector.ofFn fun i => E[i] * cj s[i]
+  msSum ls ((msMasks ls).map fun M => Vector.ofFn fun p => cj M[p]) wf
+
 /-! ### the design the level bookkeeping must realise: exact windows on nested supports
 
 All levels sample one focal plane `Fin d`; level `i` sees only the samples of its support `S_i`
@@ -291,6 +301,10 @@ def nestedOK [BEq K] {d : Nat} : Vec K d → List (Vector Bool d × Vec K d) →
   | _, [] => true
   | u, sp :: sps =>
     (List.finRange d).all (fun p => sp.1[p] || (u[p] == 0 && sp.2[p] == 0)) && nestedOK sp.2 sps
+
+/-- The windows are real (fixed by the conjugation) — Tukey windows are. -/
+def windowsReal [BEq K] {d : Nat} (cj : K → K) (sps : List (Vector Bool d × Vec K d)) : Bool :=
+  sps.all fun sp => (List.finRange d).all fun p => cj sp.2[p] == sp.2[p]
 
 /-- A monochromatic wavefront: field and wavelength. -/
 structure Wf (K : Type) (n : Nat) where
